@@ -30,7 +30,9 @@ CLAIMS = {
            'for every non-increasing batch-size list, one entry per sequence equal to that sequence\'s length -- the index used to gather last states. The loop model is tied to the code by pins '
            '(slicing in all three cells, growing batch in the reverse direction, rename map) and by running the REAL forward_layer with an integer cell on generated ragged batches in both '
            'directions and comparing outputs and last states exactly with the recurrence evaluated in Coq. The gate equations, multi-layer / bidirectional composition, sort / unsort '
-           'permutations, state_dict keys and parameter gradients are validated numerically against torch.nn.RNN / GRU / LSTM over the configuration grid (not proved); sort / unsort is by runs only.'),
+           'permutations, state_dict keys and parameter gradients are validated numerically against torch.nn.RNN / GRU / LSTM over the configuration grid (not proved); sort / unsort is by runs only. '
+           'Dropout: the generator checks structurally that only the cell binds the carried state and that dropout acts on inter-layer outputs only; train-mode runs with dropout = 1 (deterministic) '
+           'are compared with torch.nn, and for 0 < p < 1 the zero pattern of outputs / final states and train-vs-eval difference are checked (one repaired defect).'),
  },
  'C15': {
   'technique': 'Coq proofs by structural induction over module trees on validator predicates, walks, fixers and make_private guards regenerated from opacus/validators; real validate / fix / make_private runs on generated trees with a per-layer independence probe',
